@@ -7,13 +7,12 @@
 (* and whether vanished backends are closed and present ones usable.         *)
 EXTENDS ResolverOps, TLC, Json, IOUtils
 Trace == ndJsonDeserialize(IOEnv.TRACE_FILE)
-VARIABLES l, hist, port
-tvars == <<l, hist, port>>
+VARIABLES l, hist, ports        \* ports: host name -> the port its backend url was configured with
+tvars == <<l, hist, ports>>
 Put(f, k, v) == [x \in DOMAIN f \cup {k} |-> IF x = k THEN v ELSE f[x]]
 \* expected rotation: the union of the contributions of all names, as ip:port
-Expected == UNION {{ip \o ":" \o port : ip \in Contribution(hist[n])} : n \in DOMAIN hist}
 Verdict(e, h2) ==
-    LET exp == UNION {{ip \o ":" \o port : ip \in Contribution(h2[n])} : n \in DOMAIN h2} IN
+    LET exp == UNION {{ip \o ":" \o ports[n] : ip \in Contribution(h2[n])} : n \in DOMAIN h2} IN
     IF e.panic # "" THEN "P:C19:panic"
     ELSE IF Range(e.member) # exp THEN
          (IF ~(exp \subseteq Range(e.member)) THEN "P:C19:resolved-address-missing-from-the-rotation" ELSE "P:C19:vanished-address-still-in-the-rotation")
@@ -21,14 +20,14 @@ Verdict(e, h2) ==
     ELSE IF ~e.closed_ok THEN "P:C19:vanished-backend-not-closed"
     ELSE IF ~e.open_ok THEN "P:C19:backend-in-rotation-is-not-usable"
     ELSE ""
-TraceInit == l = 1 /\ hist = <<>> /\ port = ""
+TraceInit == l = 1 /\ hist = <<>> /\ ports = <<>>
 TraceNext ==
   /\ l <= Len(Trace) /\ l' = l + 1
   /\ LET e == Trace[l] IN
-     IF e.ev = "reset" THEN hist' = <<>> /\ port' = e.port
+     IF e.ev = "reset" THEN hist' = <<>> /\ ports' = e.ports
      ELSE LET o == [ok |-> e.ok, addrs |-> Range(e.addrs)]
               h2 == Put(hist, e.name, IF e.name \in DOMAIN hist THEN Append(hist[e.name], o) ELSE <<o>>)
-          IN /\ hist' = h2 /\ port' = port
+          IN /\ hist' = h2 /\ ports' = ports
              /\ LET v == Verdict(e, h2) IN
                 IF v # "" THEN PrintT("FAIL|" \o ToString(l) \o "|" \o e.case \o "|" \o v \o "|" \o e.cls) ELSE TRUE
 TraceSpec == TraceInit /\ [][TraceNext]_tvars
